@@ -459,6 +459,9 @@ func extremeMergesOpt(c *explore.Ctx, check func(scope string, idx int64, r *mer
 			for _, out := range []uint32{1025, 2} {
 				my := idx
 				idx++
+				if e.Heavy && (out != 1025 || x.name == "alone-nodrop" || x.name == "twice") {
+					continue
+				}
 				if !c.MineIdx(scope, my) || c.Expired() {
 					continue
 				}
